@@ -7,7 +7,7 @@ use crate::common::ArgOption;
 use crate::common::{debug, error, info, warn};
 use boa_engine::context::ContextBuilder;
 use boa_engine::object::builtins::{JsArray, JsMap};
-use boa_engine::object::ObjectInitializer;
+use boa_engine::object::{IntegrityLevel, ObjectInitializer};
 use boa_engine::property::{Attribute, PropertyDescriptor, PropertyKey};
 use boa_engine::value::Type;
 use boa_engine::{js_string, native_function::NativeFunction, Context, JsBigInt, JsError, JsValue, Source};
@@ -481,8 +481,11 @@ impl Datamodel for ECMAScriptDatamodel {
                 let processor_js = JsMap::new(ctx);
                 let location = js_string!(processor.lock().unwrap().get_location(session_id));
                 _ = processor_js.create_data_property(js_string!("location"), location, ctx);
+                // "_ioprocessors" is a system variable: its content is read-only, too.
+                _ = processor_js.set_integrity_level(IntegrityLevel::Frozen, ctx);
                 _ = io_processors_js.create_data_property(js_string!(name.as_str()), processor_js, ctx);
             }
+            _ = io_processors_js.set_integrity_level(IntegrityLevel::Frozen, ctx);
             let r = self.context.global_object().define_property_or_throw(
                 js_string!(SYS_IO_PROCESSORS),
                 PropertyDescriptor::builder()
